@@ -40,8 +40,8 @@ ASSUMPTIONS = [
     'raises UnicodeDecodeError or returns some string',
     'uuid.UUID(str).bytes / str(uuid.UUID(bytes=b)) are an inverse pair on canonical UUID strings; UUID(bytes=b) raises '
     'ValueError unless len(b) == 16',
-    'PrefixedArray is proved for every fixed length 0..3 (complete unrolling per length); arbitrary length is covered '
-    'only by the bounded part',
+    'PrefixedArray: byte-level units for fixed lengths 0..3 with concrete element types; for ANY length (symbolic n) the '
+    'structure - length first, then n elements in order, once each - is proved with abstract length/element types',
 ]
 T_ = 'minecraft.networking.types.basic.'
 
@@ -875,6 +875,125 @@ class PrefixedArrayUnit(Unit):
         return out
 
 
+class PrefixedArrayAnyLength(Unit):
+    """PrefixedArray for arrays of ANY length (symbolic n) with an abstract length type and an abstract element type:
+    send = the length n first, then the elements 0..n-1 in order, each exactly once, all to the same socket (and under the
+    same context in the contextual variant); read = the length first, then exactly n element reads in order from the same
+    stream, the result being the list of what they returned.  With the S3-shaped contracts of concrete element types this
+    gives prefixed(L, xs) = L.enc(|xs|) || concat(enc(x)) and its inverse for every length."""
+    prop = 'C02'
+    name = 'C02.PrefixedArray.any-length'
+    int_mode = 'int'
+    functions = (T_ + 'PrefixedArray._PrefixedArray__send', T_ + 'PrefixedArray._PrefixedArray__read', T_ + 'PrefixedArray.send',
+                 T_ + 'PrefixedArray.read', T_ + 'PrefixedArray.send_with_context', T_ + 'PrefixedArray.read_with_context')
+
+    def setup(self, I):
+        import ast
+        from pyvc.loops import ForSpec, CompSpec
+        from pyvc.models import AbstractSeq
+        from .common import loop_keys
+        unit = self
+
+        class AbsValue(AbstractSeq):
+            def __init__(self, n):
+                self.n = n
+
+            def __sym_len__(self):
+                return self.n
+        self.AbsValue = AbsValue
+
+        class AbsResult(object):
+            def __init__(self, n):
+                self.n = n
+        self.AbsResult = AbsResult
+        fsend = raw(PrefixedArray, '_PrefixedArray__send')
+        fread = raw(PrefixedArray, '_PrefixedArray__read')
+        ks = loop_keys(fsend, T_ + 'PrefixedArray.__send', kind=ast.For)
+        kr = loop_keys(fread, T_ + 'PrefixedArray.__read', kind=ast.ListComp)
+        if len(ks) != 1 or len(kr) != 1:
+            raise RuntimeError('PrefixedArray.__send/__read no longer have one loop / one comprehension')
+        I.loop_specs[ks[0]] = ForSpec('elements', lambda I_, it: it.n, lambda I_, it, j: ('elem', j),
+                                      lambda I_, fr, j: And(unit.count == j, unit.length_sent == 1),
+                                      lambda I_, fr, j: setattr(unit, 'count', j))
+        from pyvc.builtins_model import SymRange
+        I.loop_specs[kr[0]] = CompSpec('elements', lambda I_, it: it.n, lambda I_, it, j: j,
+                                       lambda I_, fr, j: And(unit.count == j, unit.length_read == 1),
+                                       lambda I_, fr, j: setattr(unit, 'count', j),
+                                       lambda I_, j, v: I_.E.check('array.element-value', v == ('read', j) if not isinstance(v, tuple)
+                                                                   else And(v[0] == 'read', v[1] == j),
+                                                                   note='element j of the result is what the j-th element read returned'),
+                                       lambda I_, n: AbsResult(n))
+
+    def run(self, I):
+        E = I.E
+        unit = self
+        self.count, self.length_sent, self.length_read = 0, 0, 0
+        n = E.new_int('n', 0, None)
+        sock, ctx = object(), ConnectionContext(protocol_version=757)
+        via_ctx = bool(E.fork(2, 'contextual'))
+        direction = E.fork(2, 'direction')
+
+        class LenType(object):
+            @staticmethod
+            def send(value, socket):
+                E.check('array.length-first', And(I.equals(value, n), socket is sock, unit.count == 0, unit.length_sent == 0),
+                        note='the length |xs| is written first, once, to the same socket')
+                unit.length_sent += 1
+
+            @staticmethod
+            def read(file_object):
+                E.check('array.length-read-first', And(file_object is sock, unit.count == 0, unit.length_read == 0))
+                unit.length_read += 1
+                return n
+
+        class ElemType(object):
+            @staticmethod
+            def send(value, socket):
+                E.check('array.element-order', And(value[0] == 'elem', value[1] == unit.count, socket is sock, not via_ctx),
+                        note='element j is written j-th, once, to the same socket')
+                unit.count = unit.count + 1
+
+            @staticmethod
+            def send_with_context(value, socket, context):
+                E.check('array.element-order', And(value[0] == 'elem', value[1] == unit.count, socket is sock, context is ctx, via_ctx))
+                unit.count = unit.count + 1
+
+            @staticmethod
+            def read(file_object):
+                E.check('array.element-read-order', And(file_object is sock, not via_ctx))
+                j = unit.count
+                unit.count = unit.count + 1
+                return ('read', j)
+
+            @staticmethod
+            def read_with_context(file_object, context):
+                E.check('array.element-read-order', And(file_object is sock, context is ctx, via_ctx))
+                j = unit.count
+                unit.count = unit.count + 1
+                return ('read', j)
+        arr = I.call(PrefixedArray, LenType, ElemType)
+        if direction == 0:
+            value = self.AbsValue(n)
+            if via_ctx:
+                I.call(I.getattr_(arr, 'send_with_context'), value, sock, ctx)
+            else:
+                I.call(I.getattr_(arr, 'send'), value, sock)
+            E.check('array.all-elements-sent', And(self.count == n, self.length_sent == 1))
+        else:
+            r = I.call(I.getattr_(arr, 'read_with_context'), sock, ctx) if via_ctx else I.call(I.getattr_(arr, 'read'), sock)
+            E.check('array.result', isinstance(r, self.AbsResult) and And(r.n == n, self.count == n, self.length_read == 1),
+                    note='exactly n element reads; the result is the list of their values')
+        return None
+
+    def replay(self, model, label):
+        u = PrefixedArrayUnit(VarInt, Short)
+        import random
+        b = u.bounded(random.Random(3), 'quick')
+        if b['failures']:
+            return dict(confirmed=True, call=b['failures'][0]['call'], observed=b['failures'][0]['observed'])
+        return dict(confirmed=False, call='PrefixedArray(VarInt, Short) for lengths 0..300', observed='conforms')
+
+
 class Dispatch(Unit):
     """read_with_context / send_with_context of context-free types are read / send (class and instance access);
     the abstract Type raises as documented."""
@@ -933,5 +1052,5 @@ def units(tier):
     us += [LengthPrefixCut()]
     us += [PrefixedArrayUnit(VarInt, Byte), PrefixedArrayUnit(Integer, Short), PrefixedArrayUnit(VarInt, VarInt),
            PrefixedArrayUnit(VarInt, Byte, nested=True)]
-    us += [Dispatch()]
+    us += [PrefixedArrayAnyLength(), Dispatch()]
     return us
